@@ -1,22 +1,102 @@
+import json
+import os
+
 import vf
 
-SPEC = dict(
-    level="proof",
-    harness=dict(pkg_dir="cmd/zoekt-webserver/grpc/server", run="TestVerifC25$", files=["server/zz_verif_c25_test.go"],
-                 n_quick=160, n_thorough=2500),
-    runner=dict(imports=["From ZV Require Import Lib.Base Model.Stream."], case_type="c25case",
-                mismatch_fn="c25_mismatches", shard=60),
-    rule="event sequences pushed by a fake Streamer through the real Server.StreamSearch into a recording stream: six shapes (mixed; stats-only "
-         "runs of 95-106 events around the sampling period; several periods with all-zero stretches; huge files 300 KiB-1.1 MiB incl. single files "
-         "above the 1 MiB budget and pairs straddling it; zero-only; files/100 stats/files), random counters (0/1/<1000) on every numeric field of "
-         "zoekt.Stats found by reflection, FlushReason, Duration, integral priorities and -Inf. Distinct by event list; non-trivial = >= 3 events and >= 2 messages.",
-    trusted_base=["correspondence harness harness/overlay/server/zz_verif_c25_test.go (generator, fake Streamer, recording stream, Go oracle)",
-                  "proto.Size of each FileMatch is an input of the model (recorded by the harness); maxMessageSize = 1 MiB is copied into the harness",
-                  "priorities restricted to integers and -Inf (math.Max modelled on option Z); all stream sends succeed",
-                  "Stats -> proto -> Stats conversion is observed through zoekt.StatsFromProto (as the client does)"],
-    assumptions=["counters of produced results are >= 0 (stats_conserved); every ss.Send succeeds"],
-)
+IMPORTS = ["From ZV Require Import Lib.Base Model.Stream Model.StreamCollect."]
+SERVER = dict(pkg_dir="cmd/zoekt-webserver/grpc/server", run="TestVerifC25$", files=["server/zz_verif_c25_test.go"])
+SEARCH = dict(pkg_dir="search", run="TestVerifC25$", files=["search/zz_verif_c25_test.go"])
+CHUNK = dict(pkg_dir="grpc/chunk", run="TestVerifC25Const$", files=["chunk/zz_verif_c25_const_test.go"])
+
+RULE = ("(1) gRPC stage: event sequences pushed by a fake Streamer through the real Server.StreamSearch into a recording stream: seven shapes "
+        "(mixed; stats-only runs of 95-106 events around the sampling period; several periods with all-zero stretches; huge files 300 KiB-1.1 MiB "
+        "incl. single files above the budget and pairs straddling it; zero-only; files/100 stats/files; file pairs whose proto sizes sum to "
+        "maxMessageSize-1/+0/+1 exactly), random counters on every numeric field of zoekt.Stats found by reflection, FlushReason, Duration, integral "
+        "priorities and -Inf; maxMessageSize is read from grpc/chunk of the checked tree. (2) collect stage: 0-7 results through the real "
+        "newFlushCollectSender with the flush point = FlushWallTime timer after k results (k = 0..n) or the final flush. Distinct by event list (+ flush point); "
+        "non-trivial = >= 3 events and >= 2 messages (stage 1), >= 2 results (stage 2).")
+
+TRUSTED = ["correspondence harnesses harness/overlay/server/zz_verif_c25_test.go (fake Streamer, recording stream), harness/overlay/search/zz_verif_c25_test.go "
+           "(recording sender, timer-controlled flush point; cases in which the machine stalled the sender before the timer are discarded and regenerated), "
+           "harness/overlay/chunk/zz_verif_c25_const_test.go (reads maxMessageSize); generators and Go oracles therein",
+           "proto.Size of each FileMatch is an input of the model (recorded by the harness)",
+           "priorities restricted to integers and -Inf (math.Max / < modelled on option Z); all stream sends succeed",
+           "ranking (index.SortFiles) is a parameter of the collect-stage theorems (any permutation); the correspondence compares the aggregate's files as a set; display limits (truncation) are outside the model",
+           "the two stages are tied separately (different packages) and composed by theorem (deliver_fc)"]
 
 
 def run(ctx):
-    return vf.standard_check(ctx, SPEC)
+    pid = ctx.pid
+    proofs = vf.coq_props(ctx, pid)
+    broken, failures = [], []
+    aok, aout = vf.audit()
+    if not aok:
+        proofs["ok"] = False
+        proofs["discharged"] = 0
+        broken.append("audit: the development contains Admitted/Axiom/Parameter or disables a kernel check: " + aout[-800:])
+    if ctx.tier == "thorough" and proofs["ok"]:
+        cok, cout = vf.coqchk(pid)
+        proofs["coqchk"] = cout[-1500:]
+        if not cok:
+            proofs["ok"] = False
+            broken.append("coqchk rejects Props/%s.vo: %s" % (pid, cout[-800:]))
+    if not proofs["ok"]:
+        broken.append("proof obligations of Props/%s.v do not check: %s" % (pid, (proofs.get("broken_files") or proofs.get("nonstd_axioms") or proofs["log"][-800:])))
+
+    # translator step: maxMessageSize of the checked tree
+    maxsz = None
+    hc = vf.go_harness(ctx, CHUNK["pkg_dir"], CHUNK["run"], CHUNK["files"], 1, out_name="out-chunk.jsonl", timeout=600)
+    for r in hc["records"]:
+        if r.get("kind") == "info" and "maxMessageSize" in r:
+            maxsz = int(r["maxMessageSize"])
+    if hc["rc"] != 0 or not maxsz:
+        broken.append("cannot read grpc/chunk.maxMessageSize (rc=%d): %s" % (hc["rc"], hc["log"][-800:]))
+        maxsz = 1 << 20
+
+    recs = []
+    for h, n, out_name in ((SERVER, ctx.n(160, 2500), "out-server.jsonl"), (SEARCH, ctx.n(50, 400), "out-search.jsonl")):
+        hr = vf.go_harness(ctx, h["pkg_dir"], h["run"], h["files"], n, env={"VERIF_C25_MAX": str(maxsz)}, out_name=out_name,
+                           timeout=900 if ctx.tier == "quick" else 3000)
+        for r in hr["records"]:
+            r["_stage"] = h["pkg_dir"]
+        recs += hr["records"]
+        if hr["rc"] != 0:
+            broken.append("harness TestVerifC25 in ./%s failed (rc=%d): %s" % (h["pkg_dir"], hr["rc"], hr["log"][-1500:]))
+    for r in recs:
+        if r.get("kind") == "oracle_fail":
+            failures.append(dict(key=r.get("key", "?"), what=r.get("what", ""), replay=r.get("replay")))
+    cases = [r for r in recs if r.get("kind") == "case"]
+    evaluated, nbad = 0, 0
+    for stage, ctype, fn, tag in ((SERVER["pkg_dir"], "c25case", "c25_mismatches", ""), (SEARCH["pkg_dir"], "c25fc_case", "c25fc_mismatches", "fc")):
+        cs = [c for c in cases if c["_stage"] == stage]
+        if not cs:
+            if not broken:
+                broken.append("harness in ./%s produced no cases" % stage)
+            continue
+        ev = vf.coq_eval_cases(ctx, pid, IMPORTS, ctype, fn, [c["coq"] for c in cs], shard=60, tag=tag)
+        evaluated += ev["evaluated"]
+        nbad += len(ev["bad"])
+        if not ev["ok"]:
+            broken.append("model evaluation failed: " + ev["log"][-1500:])
+        for i in ev["bad"][:20]:
+            broken.append("correspondence %s: model and implementation disagree on case %s" % (fn, json.dumps(cs[i].get("sample"), default=str)[:1500]))
+    cov = dict(
+        evaluations=len(cases),
+        distinct_nontrivial=vf.distinct_nontrivial(cases),
+        rule=RULE,
+        samples=[c.get("sample") for c in cases[:3]] or [],
+        traces_validated_against_impl=evaluated,
+        correspondence_mismatches=nbad,
+        oracle_failures=len(failures),
+        input_distribution=vf.histogram(cases, "class"),
+        trusted_base=TRUSTED,
+        generated=dict(maxMessageSize=maxsz),
+    )
+    if proofs.get("coqchk"):
+        cov["coqchk"] = proofs["coqchk"]
+    for r_ in recs:
+        if r_.get("kind") == "info":
+            cov.setdefault("info", []).append({k: v for k, v in r_.items() if k not in ("kind", "_stage")})
+    return vf.finish(ctx, "proof", proofs, cov, failures=failures, broken=broken,
+                     assumptions=["counters of produced results are >= 0 (stats_conserved); every ss.Send succeeds",
+                                  "no display limits in the collect stage (MaxDocDisplayCount = MaxMatchDisplayCount = 0); ranking is a permutation"])
